@@ -27,7 +27,7 @@ func init() {
 				"the answer flag, each written to its own byte range (no overlapping shifts). R8: every rule-list engine constructor " +
 				"receives the empty cache or a result cache created for it alone, once per engine.",
 			NotCovered: "equality of verdicts with and without caches over all list contents; client-specific modifiers ($client), which the property excludes.",
-			Rules: map[string]string{"C12-R20": "filterstorage forGroup and forClient hand out a composite filter built in this call from the lists that are current now (composite.New on every path): no filter assembled earlier, with the lists and result caches of an older refresh, is kept and handed out again", "C12-R19": "hashprefix.FilterRequest looks its verdict up and stores it under one cache key, computed from the request's own host, type and class", "C12-R17": "the clone functions of dnsmsg put no object of the source message into the clone (every option, record and slice is taken from a pool or copied)", "C12-R16": "hash-prefix storage and filter publish new state only after a successful load (shared with C13-R3)", "C12-R15": "an answer served from a result cache has the response code of the answer that was stored (SetReply resets it)", "C12-RC": "class rules (error chains, shadowed results, character classes, crossed arguments, pool constructors, array pools, loop completeness, loop-carried buffers, replacing setters, complete clones, Grow arithmetic, pooled-buffer escape, sorted searches, fresh decode targets, per-iteration objects, whole-message copies, codec guards) over the packages this property rests on", "C12-R14": "serviceblock.Filter.Refresh computes the new service map from the new index alone (never reads the map it replaces)", "C12-R13": "slices of a (possibly cached, shared) urlfilter.DNSResult are only read or copied, never stored or appended to", "C12-R1": "swap+clear in one write-locked section", "C12-R2": "query path read-holds the lock",
+			Rules: map[string]string{"C12-R21": "hash-prefix refresh: once Storage.Reset has published the new hash set, every path to a return clears the result cache (no early return between the two)", "C12-R20": "filterstorage forGroup and forClient hand out a composite filter built in this call from the lists that are current now (composite.New on every path): no filter assembled earlier, with the lists and result caches of an older refresh, is kept and handed out again", "C12-R19": "hashprefix.FilterRequest looks its verdict up and stores it under one cache key, computed from the request's own host, type and class", "C12-R17": "the clone functions of dnsmsg put no object of the source message into the clone (every option, record and slice is taken from a pool or copied)", "C12-R16": "hash-prefix storage and filter publish new state only after a successful load (shared with C13-R3)", "C12-R15": "an answer served from a result cache has the response code of the answer that was stored (SetReply resets it)", "C12-RC": "class rules (error chains, shadowed results, character classes, crossed arguments, pool constructors, array pools, loop completeness, loop-carried buffers, replacing setters, complete clones, Grow arithmetic, pooled-buffer escape, sorted searches, fresh decode targets, per-iteration objects, whole-message copies, codec guards) over the packages this property rests on", "C12-R14": "serviceblock.Filter.Refresh computes the new service map from the new index alone (never reads the map it replaces)", "C12-R13": "slices of a (possibly cached, shared) urlfilter.DNSResult are only read or copied, never stored or appended to", "C12-R1": "swap+clear in one write-locked section", "C12-R2": "query path read-holds the lock",
 				"C12-R3": "generalised refresh discipline (F9)", "C12-R4": "no per-request data in shared caches (F8)", "C12-R5": "custom engine staleness gate", "C12-R9": "caches store clones and hand out clones (shared with C07-R4)",
 				"C12-R10": "custom rules received from the backend are stamped with the time of reception (time.Now), the only stamp that is newer than every cached engine",
 				"C12-R6":  "collision checks", "C12-R7": "cache key dependence and injective packing", "C12-R8": "one result cache per engine"},
@@ -35,6 +35,9 @@ func init() {
 }
 
 func runC12(c *an.Ctx) {
+	// ---- R21: nothing returns between publishing the new hashes and clearing the result cache
+	c.Floor("C12-R21", 1)
+	c12ClearAfterReset(c, "C12-R21")
 	// ---- R20: composite filters are assembled per request, not remembered across refreshes
 	c.Floor("C12-R20", 2)
 	c12FreshComposite(c, "C12-R20")
@@ -955,4 +958,50 @@ func c12FreshComposite(c *an.Ctx, rule string) {
 		c.Check(bad == "", rule, key, fn.Pos(), "every returned value is a composite.New result of this invocation",
 			bad+": a filter kept from an earlier call holds the rule lists, services and result caches that were current then, and requests go on being answered from them after a refresh")
 	}
+}
+
+// c12ClearAfterReset: Storage.Reset installs the new hash set before it returns.
+// From its success edge every path of Filter.refresh to a return passes the
+// Clear of the result cache; a return in between (a check of the new list's
+// size, say) leaves verdicts of the old list in the cache while uncached hosts
+// are judged by the new one.
+func c12ClearAfterReset(c *an.Ctx, rule string) {
+	k := "filter/hashprefix.(*Filter).refresh"
+	fn := c.Prog.Fn(k)
+	key := k + " clears the result cache on every path after a successful Reset"
+	if fn == nil {
+		c.Und(rule, key, token.NoPos, "anchor not found")
+		return
+	}
+	c.Analysed(k)
+	var reset *ssa.Call
+	for _, call := range an.Calls(fn) {
+		if cv, ok := call.(*ssa.Call); ok && strings.HasSuffix(an.CalleeName(call), "hashprefix.Storage).Reset") {
+			reset = cv
+		}
+	}
+	if reset == nil {
+		c.Und(rule, key, fn.Pos(), "no Storage.Reset call")
+		return
+	}
+	var errEdges []an.CondEdge
+	for _, b := range fn.Blocks {
+		if ifi, ok := b.Instrs[len(b.Instrs)-1].(*ssa.If); ok {
+			for _, br := range []bool{true, false} {
+				if e := (an.CondEdge{If: ifi, Branch: br}); an.ErrNonNilEdgeOf(e, reset) {
+					errEdges = append(errEdges, e)
+				}
+			}
+		}
+	}
+	if len(errEdges) == 0 {
+		c.Und(rule, key, fn.Pos(), "the error test of Reset was not recognised")
+		return
+	}
+	leak := exitAvoiding(reset, errEdges, func(in ssa.Instruction) bool {
+		call, ok := in.(ssa.CallInstruction)
+		return ok && call.Common().IsInvoke() && call.Common().Method.Name() == "Clear"
+	})
+	c.Check(!leak, rule, key, reset.Pos(), "Clear lies on every path from a successful Reset to a return",
+		"a path returns after Storage.Reset has succeeded (the new hash set is already in use) without clearing the result cache: hosts that were cached keep the old list's verdict, the others get the new one")
 }
